@@ -1,5 +1,5 @@
 SPECIFICATION TSpec
 CONSTANTS
-  NT = 12
+  NT = 16
 CONSTRAINT Report
 CHECK_DEADLOCK FALSE
